@@ -161,6 +161,41 @@ pub fn run(ctx: &mut Ctx, prop: &str) {
             }
         }
     }
+    // containers whose string forms share prefixes around the "," separator (and, for == / ===, that
+    // are structurally identical): all arrays of length 1..2 over a 10-element alphabet, pairwise
+    {
+        let el: Vec<Value> = ["1", "10", r#""1""#, r#""a""#, r#""a b""#, r#""a,b""#, "[1,2]", "[1]", "null", r#""""#].iter().map(|t| al::parse(t)).collect();
+        let mut arrs: Vec<Value> = Vec::new();
+        for x in &el {
+            arrs.push(json!([x]));
+        }
+        for x in &el {
+            for y in &el {
+                arrs.push(json!([x, y]));
+            }
+        }
+        if ctx.tier_thorough {
+            for x in el.iter().take(5) {
+                for y in el.iter().take(5) {
+                    for z in el.iter().take(5) {
+                        arrs.push(json!([x, y, z]));
+                    }
+                }
+            }
+        }
+        arrs.extend([json!("1,5"), json!("1,2,0"), json!("a,b"), json!("a b,c"), json!(",")]);
+        for a in &arrs {
+            if !ctx.mine() {
+                continue;
+            }
+            for b in &arrs {
+                ctx.edge();
+                for k in ops {
+                    ctx.check(&format!("{}:array-family", k), &op(k, vec![a.clone(), b.clone()]), &null);
+                }
+            }
+        }
+    }
     if prop == "C09" {
         let t = triple_corpus(ctx.tier_thorough);
         for a in &t {
